@@ -82,12 +82,20 @@ func (c tdCase) String() string {
 	return fmt.Sprintf("%s/%s cause=%s k=%d peer=%s", c.API, c.Codec, c.Cause, c.K, c.Peer)
 }
 
+type modelCheck struct {
+	lines []string
+	want  string
+}
+
 type tdOutcome struct {
 	p14, p15 []string
+	models   []modelCheck
 }
 
 func runTeardownCase[T any](codec Codec[T], tc tdCase) *tdOutcome {
 	out := &tdOutcome{}
+	rec, stopRec := startTraceRec()
+	defer stopRec()
 	before := len(panrpcGoroutines())
 	plan := NewFaultPlan()
 	p, err := NewPair(codec, PairOpts{API: tc.API, Plan: plan})
@@ -258,6 +266,11 @@ func runTeardownCase[T any](codec Codec[T], tc tdCase) *tdOutcome {
 		}
 	}
 	_ = idA
+	// trace validation against the Lean registry model M4 (one model instance per registry)
+	for _, s := range []*Side[T]{p.A, p.B} {
+		lines, want := rgReplay(rec.events(), s.Hooks())
+		out.models = append(out.models, modelCheck{lines, want})
+	}
 	return out
 }
 
@@ -273,6 +286,9 @@ func runTeardownSuite(rep *Report, tier string, seed int64, prop string) {
 	}
 	rng := rand.New(rand.NewSource(seed))
 	_ = rng
+	var pendingModels []modelCheck
+	var pendingCases []string
+	defer func() { validateRg(rep, prop, pendingModels, pendingCases) }()
 	for _, api := range apis() {
 		for _, cause := range []string{"cancel", "readerr", "peer-cancel"} {
 			for _, k := range ks {
@@ -298,6 +314,10 @@ func runTeardownSuite(rep *Report, tier string, seed int64, prop string) {
 						probs := o.p15
 						if prop == "C14" {
 							probs = o.p14
+							for _, mc := range o.models {
+								pendingModels = append(pendingModels, mc)
+								pendingCases = append(pendingCases, tc.String())
+							}
 						}
 						for _, pr := range probs {
 							kind := pr
@@ -312,6 +332,44 @@ func runTeardownSuite(rep *Report, tier string, seed int64, prop string) {
 					}
 				}
 			}
+		}
+	}
+}
+
+// validateRg replays the recorded life-cycles on the Lean registry model: every action must be
+// enabled, the model's invariant monitor must hold, and its hook log must equal the real one.
+func validateRg(rep *Report, prop string, ms []modelCheck, cases []string) {
+	if len(ms) == 0 {
+		return
+	}
+	var lines []string
+	var spans [][2]int
+	for _, m := range ms {
+		spans = append(spans, [2]int{len(lines), len(lines) + len(m.lines)})
+		lines = append(lines, m.lines...)
+	}
+	ans, err := runDriver(lines)
+	if err != nil {
+		rep.addViolation("correspondence", prop+":driver", "Lean driver failed: "+err.Error(), nil)
+		return
+	}
+	for i, m := range ms {
+		a := ans[spans[i][0]:spans[i][1]]
+		rep.TracesValidated++
+		bad := ""
+		for k, x := range a {
+			if strings.HasPrefix(x, "rejected") || strings.HasPrefix(x, "bad-op") || strings.HasPrefix(x, "inv broken") {
+				bad = fmt.Sprintf("%s (line %q)", x, m.lines[k])
+				break
+			}
+			rep.ModelSteps++
+		}
+		last := a[len(a)-1]
+		if bad == "" && !strings.HasSuffix(last, m.want) {
+			bad = fmt.Sprintf("hook log differs: model %q, implementation %q", last, m.want)
+		}
+		if bad != "" {
+			rep.addViolation("correspondence", prop+":registry-model", fmt.Sprintf("%s: M4 disagrees with the implementation: %s", cases[i], bad), map[string]any{"lines": m.lines})
 		}
 	}
 }
